@@ -237,7 +237,25 @@ func runCheck(cmd, prop, tier, fnFilter, oblFilter string, verbose bool) int {
 	}
 	outDir := filepath.Join(verifDir, "out", "smt", prop)
 	os.RemoveAll(outDir)
-	solveAll(rr.obls, outDir, timeout, all)
+	toSolve := rr.obls
+	if cmd == "check" && tier == "quick" && !claimEverything {
+		// quick tier: only the claimed obligations (and the vacuity covers) are run;
+		// obligations never claimed are reported as not-run
+		var lg ledger
+		if loadJSON(filepath.Join(verifDir, "baseline", prop+".json"), &lg) == nil {
+			toSolve = nil
+			known := loadKnown(prop)
+			for _, o := range rr.obls {
+				_, isKnown := lookupKnown(known, o.name)
+				if o.expect == "sat" || lg.isClaimed(o) || isKnown {
+					toSolve = append(toSolve, o)
+				} else {
+					o.status = "not-run"
+				}
+			}
+		}
+	}
+	solveAll(toSolve, outDir, timeout, all)
 
 	if cmd == "baseline" {
 		return writeBaseline(prop, rr, verbose)
